@@ -486,7 +486,23 @@ class LoadExec:
                             and not ge.generators[0].ifs:
                         return ("tuple_n", self.term(ge.generators[0].iter.args[0], env))
                     raise AnalysisError("unsupported generator in loader: %s" % A.src(e))
-                return ("ctor", d) + tuple(self.term(a, env) for a in e.args)
+                args = []
+                for a in e.args:
+                    if isinstance(a, ast.Starred):
+                        base = self.term(a.value, env)
+                        k = None
+                        if base and base[0] == "unpack":
+                            import struct as _struct
+                            try:
+                                k = len(_struct.unpack(base[1], b"\0" * _struct.calcsize(base[1])))
+                            except _struct.error:
+                                k = None
+                        if k is None:
+                            raise AnalysisError("unsupported expression in loader: %s" % A.src(e))
+                        args.extend(("item", base, i, k) for i in range(k))
+                    else:
+                        args.append(self.term(a, env))
+                return ("ctor", d) + tuple(args)
             return ("opaque", A.src(e)) + tuple(self.term(a, env) for a in e.args)
         if isinstance(e, (ast.BinOp, ast.UnaryOp, ast.Compare, ast.BoolOp, ast.IfExp)):
             # arithmetic on decoded values: not one of the published reconstruction forms
